@@ -177,6 +177,9 @@ def expand_len(e, psi):
 
 class SweepMachine:
     """Runs the interval machine over a routine; collects obligations in a Report."""
+    # callees that read the state without changing it (confirmed by the effects engine in C19.PURE)
+    READ_ONLY = {'len', 'operator_average', 'vdot', 'norm', 'compute_right_operator_blocks', 'print', 'isinstance'}
+    READ_ONLY_METHODS = {'as_vector', 'orthonormalize'}
 
     def __init__(self, repo, fi, report, psi='psi', ham='H', min_sites=1, two_site=False, fixed_sites=None):
         self.repo = repo
@@ -240,7 +243,7 @@ class SweepMachine:
         if isinstance(s, ast.Return):
             return st
         if isinstance(s, ast.If):
-            raise AnalysisError(f'{self.fi.qual}: conditional at line {s.lineno} inside a sweep is not a recognised idiom')
+            return self.branch(s, st)
         if isinstance(s, ast.AugAssign):
             k = self.x.site_ref(s.target)
             if k is not None:
@@ -249,6 +252,31 @@ class SweepMachine:
         raise AnalysisError(f'{self.fi.qual}: statement kind {s.__class__.__name__} at line {s.lineno} not recognised')
 
     # ------------------------------------------------------------------
+    def branch(self, s, st):
+        """a conditional with an opaque test: both arms are followed, the configurations are joined to the weaker
+        one; arms that contain scheduled steps (local evolution / optimisation) are not an idiom of the sweeps"""
+        outs, temps = [], []
+        t0 = dict(self.x.temps)
+        for arm in (s.body, s.orelse):
+            blocks = []
+            self.stack_blocks.append(blocks)
+            self.x.temps = dict(t0)
+            try:
+                outs.append(self.run(arm, st.copy()))
+            finally:
+                self.stack_blocks.pop()
+            temps.append(self.x.temps)
+            if blocks:
+                raise AnalysisError(f'{self.fi.qual}: conditional at line {s.lineno} contains sweep steps; the schedule '
+                                    f'would depend on run-time values')
+        self.x.temps = {k: v for k, v in temps[0].items() if temps[1].get(k) == v}
+        c = self.ctx()
+        x, y = outs
+        try:
+            return State(amin(x.hi, y.hi, c), amax(x.lo, y.lo, c), amin(x.a, y.a, c), amax(x.b, y.b, c))
+        except Undecided as ex:
+            raise AnalysisError(f'{self.fi.qual}: conditional at line {s.lineno}: {ex}')
+
     def loop(self, s, st):
         if not isinstance(s.target, ast.Name):
             raise AnalysisError(f'{self.fi.qual}: loop target at line {s.lineno} is not a name')
@@ -478,6 +506,14 @@ class SweepMachine:
                 if mode == ['left'] or not mode:
                     return State(Affine.const(-1), self.Lv, self.Lv, self.Lv - ONE)
                 raise AnalysisError(f'{self.fi.qual}: orthonormalize mode not recognised')
+        # ---- any other call that receives the state as a whole may change it: nothing is known afterwards
+        for c in ast.walk(value):
+            if isinstance(c, ast.Call):
+                fn = norm(c.func)
+                whole = [z for z in c.args if isinstance(z, ast.Name) and z.id == self.psi]
+                meth = fn.startswith(self.psi + '.') and fn.count('.') == 1
+                if (whole and fn not in self.READ_ONLY) or (meth and fn.split('.')[1] not in self.READ_ONLY_METHODS):
+                    return State(Affine.const(-1), self.Lv, ZERO, self.Lv - ONE)
         # ---- BL[0] = identity
         if len(targets) == 1:
             er = x.env_ref(targets[0])
@@ -512,6 +548,9 @@ class SweepMachine:
             if isinstance(value, ast.Call) and norm(value.func) in ('np.transpose',) and value.args and \
                     isinstance(value.args[0], ast.Name) and value.args[0].id in x.temps:
                 x.temps[nm] = x.temps[value.args[0].id]
+            elif x.site_ref(value, self.ham) is not None:
+                kk = x.site_ref(value, self.ham)
+                x.temps[nm] = ('merged_op', kk, kk)
             elif isinstance(value, (ast.BinOp, ast.Name, ast.Constant)) and nm not in x.temps:
                 a_ = try_affine(value, x.env_affine())
                 known = {'L'} | {v_ for v_, _, _ in self.loops}
@@ -563,8 +602,12 @@ class SweepMachine:
         if bl is None or br is None or bl[0] != 'BL' or br[0] != 'BR':
             self.rep.add('slot', s, False, f'`{norm(value)[:70]}`: left/right environment slots must receive BL[.] / BR[.]')
             return st
-        if W is None or A is None:
-            raise AnalysisError(f'{self.fi.qual}: `{norm(value)[:70]}`: operator / tensor argument not recognised')
+        if A is None:
+            raise AnalysisError(f'{self.fi.qual}: `{norm(value)[:70]}`: tensor argument not recognised')
+        if W is None:
+            self.rep.add('slot', s, False, f'`{norm(value)[:70]}`: the operator argument `{norm(a[2])}` is (the merge of) the '
+                                           f'current tensors {self.ham}.A[.] of the sites of the step')
+            W = A
         c = self.ctx()
         lo_site, hi_site = A
         self.rep.add('slot', s, W == A, f'`{norm(value)[:70]}`: MPO sites {W} match state sites {A}')
